@@ -119,10 +119,10 @@ var clientLists = [][]sasl.Mechanism{
 	{sasl.Plain}, {sasl.ScramSha1}, {sasl.ScramSha256}, {sasl.ScramSha1, sasl.Plain}, {sasl.Plain, sasl.ScramSha1}, {sasl.ScramSha256, sasl.ScramSha1},
 }
 var advertised = [][]string{
-	{"PLAIN"}, {"SCRAM-SHA-1"}, {"SCRAM-SHA-256", "SCRAM-SHA-1", "PLAIN"}, {"PLAIN", "SCRAM-SHA-1"}, {}, {"X-UNKNOWN"}, {"SCRAM-SHA-1-PLUS", "SCRAM-SHA-1"}, {"plain"},
+	{"PLAIN"}, {"SCRAM-SHA-1"}, {"SCRAM-SHA-256", "SCRAM-SHA-1", "PLAIN"}, {"PLAIN", "SCRAM-SHA-1"}, {}, {"X-UNKNOWN"}, {"SCRAM-SHA-1-PLUS", "SCRAM-SHA-1"}, {"plain"}, {"SCRAM-SHA-1-PLUS"}, {"SCRAM-SHA-256-PLUS", "X-UNKNOWN"},
 }
 
-var peerOptions = []string{"challenge-correct", "success-correct", "success-empty", "success-eq", "challenge-garbage", "challenge-eq", "success-garbage", "failure", "challenge-bad-base64", "success-bad-base64", "unknown-sasl-element", "foreign-element", "text", "eof"}
+var peerOptions = []string{"challenge-correct", "success-correct", "success-empty", "success-eq", "challenge-garbage", "challenge-eq", "success-garbage", "failure", "challenge-bad-base64", "success-bad-base64", "unknown-sasl-element", "foreign-element", "text", "eof", "success-in-stream-namespace", "success-in-other-namespace", "challenge-in-other-namespace"}
 
 func names(ms []sasl.Mechanism) []string {
 	var n []string
@@ -286,6 +286,14 @@ func initiatorBody(depth int) nd.Body {
 				return el("foo", ""), nil
 			case "foreign-element":
 				return `<message xmlns='jabber:client'/>`, nil
+			case "success-in-stream-namespace":
+				// named like the SASL element but not in the SASL namespace: it
+				// signals nothing (no noteSuccess)
+				return `<success>` + b64(correct) + `</success>`, nil
+			case "success-in-other-namespace":
+				return `<success xmlns='urn:xmpp:sasl:2'>` + b64(correct) + `</success>`, nil
+			case "challenge-in-other-namespace":
+				return `<x:challenge xmlns:x='urn:example:other'>` + b64(correct) + `</x:challenge>`, nil
 			case "text":
 				return "junk", nil
 			}
@@ -509,7 +517,7 @@ func init() {
 	drv.Register(&drv.Prop{
 		ID:    "C03",
 		Level: "model_checking",
-		Rule: "initiator: 6 client mechanism lists x 8 advertised lists x every peer script of up to D steps over 14 answers (challenge/success carrying the correct next SCRAM message computed by a reference RFC 5802 server from what the client actually sent, empty, '=', garbage, invalid base64; failure; unknown SASL element; foreign element; text; EOF), the client then being allowed to restart the stream; receiver: 2 mechanism lists x 3 permission-callback behaviours x every client script of up to D steps over 19 messages (auth with valid/wrong/malformed/empty/'='/bad-base64/four-part payloads, unoffered/unknown/missing mechanism, SCRAM first message, response before/after auth, abort, failure, junk). " +
+		Rule: "initiator: 6 client mechanism lists x 10 advertised lists x every peer script of up to D steps over 17 answers (challenge/success carrying the correct next SCRAM message computed by a reference RFC 5802 server from what the client actually sent, empty, '=', garbage, invalid base64; failure; unknown SASL element; foreign element; text; EOF), the client then being allowed to restart the stream; receiver: 2 mechanism lists x 3 permission-callback behaviours x every client script of up to D steps over 19 messages (auth with valid/wrong/malformed/empty/'='/bad-base64/four-part payloads, unoffered/unknown/missing mechanism, SCRAM first message, response before/after auth, abort, failure, junk). " +
 			"Oracle (only-if): Authn set => mechanism offered by both sides, mechanism completed per the reference, success signalled by the receiver (initiator) / permission callback asked and accepted (receiver). Non-trivial = every distinct script.",
 		Assumptions: []string{"only-if direction: a success the client rejects is not a violation", "server-side SCRAM cannot complete in this code base (no salted credential source is wired) and -PLUS needs a TLS connection state: receiver configurations are PLAIN (+ SCRAM-SHA-1 offered but unable to finish); a 'not implemented' panic inside mellium.im/sasl is recorded as an outcome, not explored", "PBKDF2 runs at the library's iteration count 4096",
 			"mellium.im/sasl v0.3.2 hangs (infinite loop in the SCRAM client's parameter parser) on an empty or attribute-less payload received while waiting for the server-first message; those executions are skipped and counted under skipped_out_of_domain"},
